@@ -32,7 +32,7 @@ func init() {
 		Cases:           func(tier string) int { return baseCases(tier) + ctxCases(tier) + r4Cases(tier) + r5Cases(tier) },
 		Rule: "cases 0..639 (quick) / 0..39999 (thorough): case i runs class i%4: (0) middleware-concurrent, (1) publisher-decorator-concurrent: a multiset of 4..96 messages over 1..5 keys (payload sizes around the 64-byte read limit: equal prefixes with different tails, keys from SHA-256/Adler-32 with limits 1..MaxInt64 or a metadata field), " +
 			"presented by 1..32 goroutines released by a barrier with yield injection at the repository's hook point, retention window 1 h (or the default repository, Repository left nil: one minute); exactly one message per key may reach the handler / inner publisher, all others must come back as (nil,nil) resp. acked and filtered; " +
-			"(2) window: windows 5..50 ms, IsDuplicate polled with conservative monotonic stamps: a key accepted at [a0,a1] must be reported duplicate by any call ending before a0+window, and must be accepted again before the harness's own ticker of period window/2 fired 12 times past a1+window (else inconclusive if the control ticker itself was late); " +
+			"(2) window: windows 5..50 ms, IsDuplicate polled with conservative monotonic stamps: a key accepted at [a0,a1] must be reported duplicate by any call ending before a0+window, and must be accepted again before 40 ticks of the harness's own ticker of period window/2 were received later than a1+window*1.5+1s (30 s budget, then inconclusive); " +
 			"(3) hashers (pure): pairs of payloads with a common prefix >= max(limit,64) must get equal keys from both built-in hashers, pairs differing inside it different SHA-256 keys. " +
 			"The following 320 (quick) / 12000 (thorough) cases alternate (4) ctx-middleware, (5) ctx-decorator: 1..4 keys, 1..18 arrivals whose MESSAGE CONTEXTS are live (Background, cancelable, far deadline), cancelled before, past their deadline, child of a cancelled parent, " +
 			"cancelled inside the KeyFactory (after the deduplicator took the message), cancelled at the repository's hook point (inside IsDuplicate, before its critical section), cancelled after the call returned, or carry a 0.05..3 ms deadline that races the presentation; " +
@@ -457,7 +457,10 @@ func window(e *vlib.Env) vlib.Result {
 		select {
 		case <-control.C:
 			for k := range state {
-				if time.Since(state[k].a1) > win {
+				// same rule as hot-expiry / retained: only ticks received later than a1 + window*1.5 (documented maximum
+				// retention) + 1 s count, and 40 of them are needed; on a loaded machine (thousands of tickers of earlier cases in
+				// the process, load average > 100) 12 ticks past a1+window have been seen before the clean-up goroutine ran once
+				if time.Since(state[k].a1) > win+win/2+hotMargin {
 					state[k].ticks++
 				}
 			}
@@ -470,8 +473,8 @@ func window(e *vlib.Env) vlib.Result {
 			polls++
 			if dup {
 				dups++
-				if state[k].ticks >= 12 {
-					res.Fail("never-expires", "key still reported duplicate although %d ticks of a control ticker with period window/2 have fired since a1+window (%v after acceptance): %s", state[k].ticks, b1.Sub(state[k].a1), spec)
+				if state[k].ticks >= hotControlTicks {
+					res.Fail("never-expires", "key still reported duplicate although %d ticks of a control ticker with period window/2 were received later than a1+window*1.5+%v (%v after acceptance): %s", state[k].ticks, hotMargin, b1.Sub(state[k].a1), spec)
 				}
 				continue
 			}
